@@ -95,7 +95,10 @@ func (t *Trie) BuildFailureLinks() {
 // Match returns true if the text contains any of the patterns in the trie.
 func (t *Trie) Match(text string) bool {
 	node := &t.root
-	for _, v := range text {
+	for i := 0; i < len(text); {
+		v, size := decodeRune(text, i)
+		i += size
+
 		idx := t.index(node.children, v)
 		for node != &t.root && idx < 0 {
 			node = node.fail
@@ -178,7 +181,10 @@ func (t *Trie) Replace(text string, repl string) string {
 // PrefixSearch returns all patterns that have the key as prefix.
 func (t *Trie) PrefixSearch(key string) []string {
 	node := &t.root
-	for _, v := range key {
+	for i := 0; i < len(key); {
+		v, size := decodeRune(key, i)
+		i += size
+
 		idx := t.index(node.children, v)
 		if idx < 0 {
 			return nil
@@ -214,7 +220,7 @@ func (t *Trie) PrefixSearch(key string) []string {
 
 		// depth is the byte offset in buf at which this node's rune belongs
 		buf.Truncate(int(cur.depth))
-		buf.WriteRune(cur.r)
+		writeRune(&buf, cur.r)
 		if cur.node.isEnd {
 			ret = append(ret, buf.String())
 		}
@@ -234,7 +240,10 @@ func (t *Trie) FuzzySearch(key string) []string {
 	}
 
 	node := &t.root
-	for _, v := range key {
+	for i := 0; i < len(key); {
+		v, size := decodeRune(key, i)
+		i += size
+
 		idx := t.index(node.children, v)
 		for node != &t.root && idx < 0 {
 			node = node.fail
@@ -276,7 +285,7 @@ func (t *Trie) FuzzySearch(key string) []string {
 
 			// depth is the byte offset in buf at which this node's rune belongs
 			buf.Truncate(int(cur.depth))
-			buf.WriteRune(cur.r)
+			writeRune(&buf, cur.r)
 			if cur.node.isEnd {
 				ret = append(ret, buf.String())
 			}
@@ -383,7 +392,21 @@ func decodeRune(s string, i int) (rune, int) {
 	}
 
 	r, size := utf8.DecodeRuneInString(s[i:])
+	if r == utf8.RuneError && size == 1 {
+		// a byte that is not valid UTF-8: give it a value of its own (negative, so it can never
+		// equal a real rune, in particular not a genuine U+FFFD) to keep matching byte-exact
+		return -1 - rune(s[i]), 1
+	}
 	return r, size
+}
+
+// writeRune appends the UTF-8 encoding of r, or the byte an invalid-byte value stands for.
+func writeRune(buf *bytes.Buffer, r rune) {
+	if r < 0 {
+		buf.WriteByte(byte(-1 - r))
+		return
+	}
+	buf.WriteRune(r)
 }
 
 type trieFrame struct {
